@@ -141,6 +141,10 @@ func TestVerifC48(t *testing.T) {
 			cidr = netip.MustParsePrefix("fd80::/64")
 		}
 		for bits := 0; bits <= width; bits++ {
+			if c.OutOfTime() {
+				c.Capped(fmt.Sprintf("soft time budget reached at %s prefix length %d", fam, bits))
+				return
+			}
 			for _, ma := range masks {
 				maskCidr := netip.PrefixFrom(ma, bits)
 				for _, port := range ports {
